@@ -2,10 +2,79 @@
 from solvers_common import *
 
 
+def _preferred(n, rel):
+    """brute force: the preferred extensions of a framework with arguments 0..n-1 (bit sets)"""
+    att = [0] * n      # att[b] = bit set of the attackers of b
+    tg = [0] * n
+    for (a, b) in rel:
+        att[b] |= 1 << a
+        tg[a] |= 1 << b
+    adm = []
+    for S in range(1 << n):
+        hit = 0
+        for a in range(n):
+            if S >> a & 1:
+                hit |= tg[a]
+        if S & hit:
+            continue
+        if all(not (S >> a & 1) or (att[a] & ~hit) == 0 for a in range(n)):
+            adm.append(S)
+    return [S for S in adm if not any(T != S and (T & S) == S for T in adm)]
+
+
+def pairs_stage(ctx):
+    """EVERY pair of arguments of medium frameworks (9-13 arguments, several preferred extensions) as a skeptical preferred
+    (ideal) query with and without certificate on fresh objects: the statuses must coincide - both are the disjunction
+    semantics (C07), whatever the entry point (C06).  A disagreement is resolved by brute force and reported with the
+    framework."""
+    h = build_harness(ctx)
+    if not h:
+        return
+    per = 30000 if ctx.thorough else 3000
+    cmds, files = [], []
+    for s in range(NCPU):
+        cf = os.path.join(ctx.work, "pairs.%d.cases" % s)
+        seed = (ctx.seed * 1000003 + 4242 + s * 101) % (2 ** 62)
+        cmds.append("%s pairs --seed %d --count %d --tier %s --out %s --shard %d/%d" % (h, seed, per, ctx.tier, cf, s, NCPU))
+        files.append(cf)
+    res = run_parallel(cmds, 1200)
+    n_fw = n_q = 0
+    for (rc, out), cf, cmd in zip(res, files, cmds):
+        if rc not in (0, 3) or not os.path.exists(cf):
+            ctx.violation("pairs: harness-failed: %s" % out[-300:], "command: %s\n" % cmd, found_input=False, key="pairs-harness")
+            continue
+        for c in parse_cases(cf):
+            n_fw += 1
+            for o in c.outs:
+                t = o.split()
+                if t[0] == "queries":
+                    n_q += int(t[1])
+                elif t[0] == "mismatch":
+                    n, rel = None, []
+                    for l in c.ins:
+                        u = l.split()
+                        if u and u[0] == "iccma":
+                            n = int(u[1]); ids = [int(x) for x in u[2:]]; rel = list(zip(ids[0::2], ids[1::2]))
+                    why = "%s-%s of the list [%s, %s]: status %s without certificate, %s with certificate" % (t[2], t[1], t[3], t[4], t[5].split("=")[1], t[6].split("=")[1])
+                    if n is not None and n <= 14 and t[1] == "PR":
+                        pr = _preferred(n, rel)
+                        x, y = int(t[3]) - 1, int(t[4]) - 1
+                        truth = all((S >> x & 1) or (S >> y & 1) for S in pr)
+                        why += "; by brute force (%d preferred extensions) every one contains a listed argument: %s" % (len(pr), "YES" if truth else "NO")
+                    ctx.violation("pairs: " + why, c.text(), found_input=True, key="pairs" + t[1])
+                elif t[0] == "panic":
+                    ctx.violation("pairs: the harness panicked: " + o[:200], c.text(), found_input=True, key="pairs-panic")
+    ctx.cov["all_pairs_stage"] = {"frameworks_of_9_to_13_arguments": n_fw, "queries_with_and_without_certificate": n_q}
+    ctx.floor("all_pairs_queries", n_q)
+
+
 def main(ctx):
     total = 30000 if ctx.thorough else 3200
     static_check(
         ctx, "static-multi", total, extra="--q DC,DS",
         more_runs=[("static-multi", 0, "--q DC,DS --exhaustive %d" % (3 if ctx.thorough else 2))],
         rule="generated frameworks (recipes: components of mixed kinds, cycles, self-attacks, funnels across the hybrid threshold, duplicated attack lines, sparse ids through removal histories) x acceptance queries over lists of 1-3 arguments with forced spreads (different components, one component, attacker/attacked pair, repetitions) x all static solvers x selectable encoders x with/without certificate; each run replayed on Model.Solvers with the recorded SAT answers and judged by the brute-force disjunction semantics (credb/skepb) extracted from Spec.AF",
+        finish=False,
     )
+    pairs_stage(ctx)
+    ctx.finish()
